@@ -1,5 +1,6 @@
 import UvModel.Lemmas.LoopRunInv
 import UvModel.Lemmas.LoopReqs2
+import UvModel.Lemmas.LoopReqs3
 /-!
   C01 — loop liveness.  Theorems over the LoopModel (`HandleKernels`, `Loop`, `LoopRun`);
   `Script` = what every callback invocation does (arbitrary), `prog` = arbitrary main program,
@@ -168,8 +169,9 @@ theorem alive_iff_full_false : ¬ alive_iff_full_statement := by
 
 /-- `alive_iff` at every API boundary of `main`, with the request disjunct in its documented form ("a request is
     owed a callback", by `reqs_inv`) — the corrected `alive_iff_full_statement`: the pending-queue disjunct cannot
-    be dropped (`alive_iff_full_false`), and the closing disjunct is the loop's `closing_handles` list (inside the
-    closing phase it is detached, see `alive_in_close_phase_witness`). -/
+    be dropped (`alive_iff_full_false`), and the closing disjunct is the loop's `closing_handles` list — at these boundaries
+    exactly the CLOSING ∧ ¬CLOSED handles (`closing_iff`, `alive_iff_documented`); inside the closing phase it is
+    detached, see `alive_in_close_phase_witness`. -/
 theorem alive_iff_boundary (sc : Script) (fuel clock0 : Nat) (metrics : Bool) (oracle : List PollRes) (prog : List MainOp) :
     let s := runMain sc fuel (initLoop clock0 metrics oracle) prog
     alive s = true ↔ (∃ e ∈ s.c.fl, e.2.active = true ∧ e.2.ref = true ∧ e.2.closing = false) ∨ s.reqs ≠ [] ∨
@@ -183,6 +185,78 @@ theorem alive_iff_boundary (sc : Script) (fuel clock0 : Nat) (metrics : Bool) (o
     | nil => simp
     | cons a t => simp
   rw [alive_iff s hi, har]
+
+/-- at every API boundary of `main` the chain detached by `uv__run_closing_handles` is empty and
+    `closing_handles` holds exactly the handles that are CLOSING and not yet CLOSED (close callback not
+    delivered), each once (`Lemmas/LoopReqs3.lean`) -/
+theorem closing_iff (sc : Script) (fuel clock0 : Nat) (metrics : Bool) (oracle : List PollRes) (prog : List MainOp) :
+    let s := runMain sc fuel (initLoop clock0 metrics oracle) prog
+    s.closingLocal = [] ∧ s.closing.Nodup ∧
+    (s.closing ≠ [] ↔ ∃ e ∈ s.c.fl, e.2.closing = true ∧ e.2.closed = false) ∧
+    (∀ id, id ∈ s.closing ↔ ∃ e ∈ s.c.fl, e.1 = id ∧ e.2.closing = true ∧ e.2.closed = false) := by
+  intro s
+  obtain ⟨h1, h2, h3, h4⟩ := Reqs.closing_queued sc fuel clock0 metrics oracle prog
+  have hmem : ∀ id, id ∈ s.closing ↔ ∃ e ∈ s.c.fl, e.1 = id ∧ e.2.closing = true ∧ e.2.closed = false := by
+    intro id
+    constructor
+    · exact h4 id
+    · rintro ⟨e, he, rfl, hc, hd⟩; exact h3 e he hc hd
+  refine ⟨h1, h2, ?_, hmem⟩
+  constructor
+  · intro hne
+    cases hcl : s.closing with
+    | nil => exact absurd hcl hne
+    | cons id t =>
+      obtain ⟨e, he, _, hc, hd⟩ := (hmem id).mp (by rw [hcl]; exact List.mem_cons_self)
+      exact ⟨e, he, hc, hd⟩
+  · rintro ⟨e, he, hc, hd⟩ hnil
+    have := h3 e he hc hd
+    rw [hnil] at this
+    cases this
+
+/-- `alive_iff` in the documented form, at every API boundary of `main`: `uv_loop_alive()` is true exactly when
+    some handle is ACTIVE ∧ REF ∧ ¬CLOSING, or a request is owed its callback, or a handle is CLOSING and has not
+    had its close callback — or (the deviation, `alive_iff_full_false`) an io watcher sits in the pending queue. -/
+theorem alive_iff_documented (sc : Script) (fuel clock0 : Nat) (metrics : Bool) (oracle : List PollRes) (prog : List MainOp) :
+    let s := runMain sc fuel (initLoop clock0 metrics oracle) prog
+    alive s = true ↔ (∃ e ∈ s.c.fl, e.2.active = true ∧ e.2.ref = true ∧ e.2.closing = false) ∨ s.reqs ≠ [] ∨
+      (∃ e ∈ s.c.fl, e.2.closing = true ∧ e.2.closed = false) ∨ s.pending ≠ [] := by
+  intro s
+  have h1 := alive_iff_boundary sc fuel clock0 metrics oracle prog
+  have h2 := (closing_iff sc fuel clock0 metrics oracle prog).2.2.1
+  simp only at h1 h2
+  show alive s = true ↔ _
+  rw [h1, h2]
+  constructor
+  · rintro (h | h | h | h)
+    · exact Or.inl h
+    · exact Or.inr (Or.inl h)
+    · exact Or.inr (Or.inr (Or.inr h))
+    · exact Or.inr (Or.inr (Or.inl h))
+  · rintro (h | h | h | h)
+    · exact Or.inl h
+    · exact Or.inr (Or.inl h)
+    · exact Or.inr (Or.inr (Or.inr h))
+    · exact Or.inr (Or.inr (Or.inl h))
+
+/-- in particular: as long as a closed handle has not had its close callback, the loop is alive -/
+theorem closing_handle_alive (sc : Script) (fuel clock0 : Nat) (metrics : Bool) (oracle : List PollRes) (prog : List MainOp) :
+    let s := runMain sc fuel (initLoop clock0 metrics oracle) prog
+    (∃ e ∈ s.c.fl, e.2.closing = true ∧ e.2.closed = false) → alive s = true := by
+  intro s h
+  exact (alive_iff_documented sc fuel clock0 metrics oracle prog).mpr (Or.inr (Or.inr (Or.inl h)))
+
+/-- non-vacuity: two handles closed from `main`: both queued, both flagged CLOSING, the loop alive only through
+    them; after a run both close callbacks have been delivered and the records are gone -/
+example :
+    let s := runMain (fun _ _ _ => []) 5 (initLoop 1000 false [{ clock := 1000 }])
+      [MainOp.op (.init .idle), MainOp.op (.init .timer), MainOp.op (.close 2), MainOp.op (.close 3)]
+    s.closing = [3, 2] ∧ s.c.get 2 = some ⟨false, true, true, false, false⟩ ∧ s.c.get 3 = some ⟨false, true, true, false, false⟩ ∧
+      alive s = true ∧ s.c.ah = 0 ∧ s.ar = 0 ∧ s.pending = [] := by decide
+example :
+    let s := runMain (fun _ _ _ => []) 5 (initLoop 1000 false [{ clock := 1000 }])
+      [MainOp.op (.init .idle), MainOp.op (.init .timer), MainOp.op (.close 2), MainOp.op (.close 3), MainOp.run .nowait]
+    s.closing = [] ∧ s.c.get 2 = none ∧ s.c.get 3 = none ∧ alive s = false ∧ s.ncbTotal = 2 := by decide +kernel
 
 /-- the same inside callbacks: wherever both accounting invariants hold (they do after every API call, callback
     and phase: `count_inv_in_callbacks`, `reqs_inv_in_callbacks`) -/
@@ -379,6 +453,15 @@ theorem held_owed_once (s : State) (hr : Reqs.RInv none s) (r : Nat) (hh : 0 < R
   have h2 := hr.2.2.1 r
   simp only [Reqs.idc, List.countP_eq_length_filter] at h1 h2
   omega
+
+/-- non-vacuity of the hypotheses of `reqs_inv_in_callbacks` / `held_owed_once`: a reachable state with a queued
+    send (slot in `write_queue`), a sent one (slot in `write_completed_queue`) and a cancelled work item -/
+example :
+    let s := runMain (fun _ _ _ => []) 5 (initLoop 1000 false [])
+      [MainOp.op (.init .udp), MainOp.op .work, MainOp.op .work, MainOp.op (.udpSend 2), MainOp.op (.udpSend 2),
+       MainOp.op (.cancel 1)]
+    Reqs.RInv none s ∧ Reqs.cnt none 1 s = 1 ∧ Reqs.cnt none 2 s = 1 ∧ Reqs.cnt none 3 s = 1 ∧ Reqs.cnt none 4 s = 0 :=
+  ⟨Reqs.runMain_rinv _ _ _ _ (Reqs.initLoop_rinv _ _ _), by decide +kernel⟩
 
 /-- owed request ids are pairwise distinct and below the next id to be handed out -/
 theorem reqs_ids (sc : Script) (fuel clock0 : Nat) (metrics : Bool) (oracle : List PollRes) (prog : List MainOp) :
